@@ -399,6 +399,11 @@ def r4(R):
 
 # ---------------------------------------------------------- C03.R5 / R6 / R7
 
+def STORE_HELPERS(t, fr):
+    """_store_objects and the helpers it is split into"""
+    return t.func.name.startswith('_store_objects')
+
+
 def store_calls(F, node):
     out = []
     for op in F.ops(node):
@@ -414,7 +419,7 @@ def store_calls(F, node):
 def r5(R):
     cls = R.prog.cls(CONN)
     f = R.method(cls, '_store_objects')
-    g, b, F = R.cfg(f, cls, max_depth=0)
+    g, b, F = R.cfg(f, cls, max_depth=2, inline=STORE_HELPERS)
     n = 0
     for nid in sorted(g.reachable()):
         node = g.nodes[nid]
@@ -459,11 +464,13 @@ def r5(R):
 def r6(R):
     cls = R.prog.cls(CONN)
     f = R.method(cls, '_store_objects')
-    g, b, F = R.cfg(f, cls, max_depth=0)
+    g, b, F = R.cfg(f, cls, max_depth=2, inline=STORE_HELPERS)
     sites = [0]
+    wparam = [p for p in f.params if p != 'self'][0]
 
     def edge(node, st, lab, tgt):
-        if node.kind == 'for' and node.frame.parent is None and lab == 'T':
+        if node.kind == 'for' and lab == 'T' and dotted(node.ast.iter) and \
+                F.canon(node.ast.iter, node.frame) == ('%param', wparam):
             return False            # next object
         for op in F.ops(node):
             if op.kind == 'call' and path_is(
